@@ -70,7 +70,7 @@ func featgenCases() []packCase {
 	}
 	add("optchain:this-binding", "() => { var o = {v: 3, m() { return this.v; }}; return [o?.m(), o.m?.(), (o?.m)(), o?.[\"m\"](), (0, o?.m) === o.m]; }", false)
 	add("optchain:super", "() => { class A { m() { return 1; } } class B extends A { n() { return [super.m?.(), super.z?.(), super[\"m\"]?.()]; } } return new B().n(); }", false)
-	add("optchain:eval-like", "() => { var o = {f: null}; return [o.f?.(), o.g?.(" + P("1") + "), o?.f?.g?.h]; }", false)
+	add("optchain:eval-like", "() => { var o = {f: null}; return [o.f?.(), o.g?.("+P("1")+"), o?.f?.g?.h]; }", false)
 	add("optchain:new-target", "() => { function F() { return new.target?.name === void 0 ? 0 : 1; } return [new F() instanceof F, F()]; }", false)
 	add("optchain:tagged", "() => { var o = {t(s) { return [this === o, s[0]]; }}; return (o?.t)`x`; }", false)
 	add("optchain:private", "() => { class C { #x = 1; #m() { return this.#x; } static t(o) { return [o?.#x, o?.#m(), o?.#m?.(), #x in (o ?? {})]; } } return [C.t(new C()), C.t(null)]; }", false)
